@@ -1197,6 +1197,131 @@ def autolabel_cases(ctx, r, lines, expect, speclines, meta):
     ctx.tick('auto-label histories (round 8)', n_hist)
 
 
+def odd_label_histories(ctx, r, lines, expect, speclines, meta):
+    """round 8: non-integral numbers (and tuples of them) through the WHOLE alphabet of `OpF2` -- explicit / auto appends, `_extend`
+    (list / iterator), pop, remove, one-pair / swapping relabels, relabel-as-integers, clear, copy four ways, pickle, slicing --
+    judged against the plain list (exact `Fraction` values) and sent to the compiled model with the labels encoded by `enc_f`
+    (the Lean side of the same map is `LabelF.enc`; theorem `labelF_history2_bijection`)."""
+    import fractions
+    fl0 = [0.5, 1.5, 2.5, -1.5, np.float64(1.5), np.float32(0.5), fractions.Fraction(3, 2), fractions.Fraction(5, 2), 0.25, 1, 2, 3, 1.0, 2.0, 'a', 'b', 0, (1.5, 'a'), (1.5,), (1, 0.5)]
+
+    def cf(o):
+        if isinstance(o, tuple):
+            return ('t',) + tuple(cf(x) for x in o)
+        if isinstance(o, str):
+            return ('s', o)
+        return ('q', o if isinstance(o, fractions.Fraction) else fractions.Fraction(int(o)) if isinstance(o, (int, np.integer)) else fractions.Fraction(float(o)))
+
+    def auto(ref):
+        n = len(ref)
+        if ('q', fractions.Fraction(n)) in ref:
+            n = 0
+            while ('q', fractions.Fraction(n)) in ref:
+                n += 1
+        return ('q', fractions.Fraction(n))
+
+    def app(ref, o, perm):
+        """list semantics of one append: (accepted, new list)"""
+        if o is None:
+            return True, ref + [auto(ref)]
+        if cf(o) in ref:
+            return perm, ref
+        return True, ref + [cf(o)]
+
+    n_hist = ctx.scale(200, 3000)
+    for _ in range(n_hist):
+        v = Variables(); ref = []; code = ['import copy, fractions, pickle', 'import numpy as np', 'from dimod.variables import Variables', 'v = Variables()']
+        fl = [x for x in fl0 if not is_np(x)] if r.random() < .5 else [x for x in fl0 if not isinstance(x, tuple)]   # NumPy scalar == tuple: DESIGN D23
+        lines.append('clear'); expect.append('ok ' + state(v, lab_f)); speclines.append(None); meta.append(('oddF2:clear', ()))
+        for _ in range(r.randint(2, 10)):
+            k = r.choice(['+', '+', '?', '~', '~', 'E', 'E', 'p', 'x', 'q', 'q', 'W', 'r', 'c', 'C', 'K', 'S'] if ref else ['+', '?', '~', 'E', 'p', 'S', 'C'])
+            o = r.choice(fl); newv = False
+            if k in '+?':
+                mline = f'append {lab_f(o)} {int(k == "?")}'; src = f'v._append({rp(o)}, permissive={k == "?"})'
+                want, ref2 = app(ref, o, k == '?')
+                call = lambda: v._append(o, permissive=(k == '?'))  # noqa: E731
+            elif k == '~':
+                mline = 'append - 0'; src = 'v._append()'; want, ref2 = app(ref, None, False)
+                call = lambda: v._append()  # noqa: E731
+            elif k == 'E':
+                items = [None if r.random() < .2 else r.choice(fl) for _ in range(r.randint(0, 4))]; perm = r.random() < .5; it = r.random() < .4
+                mline = f'extend {int(perm)} ' + (','.join('~' if x is None else lab_f(x) for x in items) or '-')
+                src = f'v._extend({"iter(" if it else ""}{rp(items)}{")" if it else ""}, permissive={perm})'
+                want, ref2 = True, ref
+                for x in items:
+                    okx, ref2 = app(ref2, x, perm)
+                    if not okx:
+                        want = False     # the prefix stays (an _extend is a fold of _append)
+                        break
+                call = lambda: v._extend(iter(items) if it else items, permissive=perm)  # noqa: E731
+            elif k == 'p':
+                mline = 'pop'; src = 'v._pop()'; want = bool(ref); ref2 = ref[:-1]
+                call = lambda: v._pop()  # noqa: E731
+            elif k == 'x':
+                o = r.choice([x for x in fl if cf(x) in ref] or fl) if r.random() < .7 else o
+                mline = f'remove {lab_f(o)}'; src = f'v._remove({rp(o)})'; want = cf(o) in ref; ref2 = [c for c in ref if c != cf(o)]
+                call = lambda: v._remove(o)  # noqa: E731
+            elif k == 'q':
+                o = r.choice([x for x in fl if cf(x) in ref] or fl) if r.random() < .7 else o
+                n = r.choice(fl)
+                mline = f'relabel {lab_f(o)}={lab_f(n)}'; src = f'v._relabel({{{rp(o)}: {rp(n)}}})'
+                want = not (cf(n) in ref and cf(n) != cf(o)); ref2 = [cf(n) if c == cf(o) else c for c in ref] if want else ref
+                mp = {o: n}
+                call = lambda: v._relabel(mp)  # noqa: E731
+            elif k == 'W':
+                cur = [x for x in fl if cf(x) in ref]
+                a = r.choice(cur) if cur else o
+                b = r.choice([x for x in cur if cf(x) != cf(a)] or [a])
+                if cf(a) == cf(b):
+                    continue
+                mline = f'relabel {lab_f(a)}={lab_f(b)},{lab_f(b)}={lab_f(a)}'; src = f'v._relabel({{{rp(a)}: {rp(b)}, {rp(b)}: {rp(a)}}})'
+                want = True; ref2 = [cf(b) if c == cf(a) else cf(a) if c == cf(b) else c for c in ref]
+                mp = {a: b, b: a}
+                call = lambda: v._relabel(mp)  # noqa: E731
+            elif k == 'r':
+                mline = 'relabelints'; src = 'v._relabel_as_integers()'; want = True; ref2 = [('q', fractions.Fraction(i)) for i in range(len(ref))]
+                call = lambda: v._relabel_as_integers()  # noqa: E731
+            elif k == 'c':
+                if r.random() < .6:
+                    continue
+                mline = 'clear'; src = 'v._clear()'; want = True; ref2 = []
+                call = lambda: v._clear()  # noqa: E731
+            elif k == 'C':
+                how = r.randrange(4); mline = 'copy'; want = True; ref2 = ref; newv = True
+                src = ['v = v.copy()', 'v = copy.copy(v)', 'v = Variables(v)', 'v = copy.deepcopy(v)'][how]
+                call = [lambda: v.copy(), lambda: copy.copy(v), lambda: Variables(v), lambda: copy.deepcopy(v)][how]
+            elif k == 'K':
+                mline = 'pickle'; src = 'v = pickle.loads(pickle.dumps(v))'; want = True; ref2 = ref; newv = True
+                call = lambda: pickle.loads(pickle.dumps(v))  # noqa: E731
+            else:
+                n0 = len(ref)
+                sl = slice(r.choice([None, None, -n0 - 1, -2, -1, 0, 1, 2, n0]), r.choice([None, None, -n0 - 1, -2, -1, 0, 1, 2, n0, n0 + 2]), r.choice([None, 1, 2, -1, -1, -2, 0]))
+                mline = 'slice ' + ' '.join('-' if a is None else str(a) for a in (sl.start, sl.stop, sl.step)); src = f'v = v[{sl!r}]'
+                want = sl.step != 0; ref2 = ref[sl] if want else ref; newv = True
+                call = lambda: v[sl]  # noqa: E731
+            code.append(f'try: {src}\nexcept (ValueError, IndexError): pass')
+            ok = True
+            try:
+                res = call()
+                if newv:
+                    v = res
+            except (ValueError, IndexError):
+                ok = False
+            ref = ref2
+            ctx.tick('oddF2 ' + mline.split(' ')[0] + ('' if ok else ' (raises)'))
+            lines.append(mline); expect.append(('ok ' if ok else 'err ') + state(v, lab_f)); speclines.append(None); meta.append(('oddF2:' + mline.split(' ')[0], tuple(code[4:])))
+            q = r.choice(fl)
+            facts = ([cf(x) for x in v] == ref and len(v) == len(ref) and ok == want and bool(v.count(q)) == (cf(q) in ref) and (q in v) == (cf(q) in ref)
+                     and (cf(q) not in ref or v.index(q) == ref.index(cf(q))) and all(v.index(x) == i for i, x in enumerate(v)))
+            ctx.case(('odd2', tuple(code[4:])), nontrivial=bool(ref))
+            if not facts:
+                ctx.fail('property', 'Variables.objects', 'non-integral number labels (whole alphabet)', f'after {code[4:]}: list(v)={list(v)!r} (last call raised={not ok}), count({q!r})={v.count(q)}; the list of labels is {[c[1:] for c in ref]!r}, accepts the last call={want}',
+                         repro='\n'.join(code) + f'\nL = {[str(c[1]) if c[0] == "q" else repr(c) for c in ref]!r}\n'
+                               f'assert len(v) == len(L) and all(v.index(x) == i for i, x in enumerate(v)) and bool(v.count({rp(q)})) == {cf(q) in ref}')
+                return
+    ctx.tick('non-integral number labels, whole alphabet (round 8)', n_hist)
+
+
 def sweep(ctx, lines, expect, speclines, meta):
     """thorough tier: ALL histories of exactly 3 operations over a 5-label alphabet and 48 op templates
     (every shorter history is a prefix of one of them)"""
@@ -1261,6 +1386,7 @@ def run(ctx):
     object_cases(ctx, r, lines, expect, speclines, meta)
     autolabel_cases(ctx, r, lines, expect, speclines, meta)
     odd_label_cases(ctx, r, lines, expect, speclines, meta)
+    odd_label_histories(ctx, r, lines, expect, speclines, meta)
     method_coverage(ctx, r)
     got = run_driver('varsdriver', lines)
     ctx.corr_lines += len(lines)
